@@ -234,3 +234,13 @@ Lemma plusplus_lemma st :
   emit st TPlusPlus = (if pending st then [TPlusPlus] else [TPlus; TPlus])
   /\ emit st TMinusMinus = (if pending st then [TMinusMinus] else [TMinus; TMinus]).
 Proof. split; reflexivity. Qed.
+
+(* a final newline at the end of the text changes nothing (the end of input adds the pending
+   semicolon itself) *)
+Lemma trailing_newline_lemma l : asi (l ++ [NL]) = asi (l ++ []).
+Proof.
+  apply asi_replace_tail; [reflexivity|].
+  destruct (state_at st0 false l [NL]) as [st c].
+  cbn [scan]. unfold nl_inserts, after_nl, nl_inserts. cbn [is_else_next negb].
+  destruct (pending st) eqn:P; destruct (depth st) as [|d] eqn:D; cbn; rewrite ?P; reflexivity.
+Qed.
